@@ -134,11 +134,19 @@ class ConstEval(object):
     self._busy = set()
     # names assigned more than once at module level are not constants
     counts = {}
+    mutated = set()
     for node in module.tree.body:
       for n in ast.walk(node) if not isinstance(node, (ast.FunctionDef, ast.ClassDef)) else []:
         if isinstance(n, ast.Name) and isinstance(n.ctx, ast.Store):
           counts[n.id] = counts.get(n.id, 0) + 1
+        elif isinstance(n, (ast.Subscript, ast.Attribute)) and \
+            isinstance(n.ctx, (ast.Store, ast.Del)) and isinstance(n.value, ast.Name):
+          mutated.add(n.value.id)
+        elif isinstance(n, ast.Expr) and isinstance(n.value, ast.Call) and \
+            isinstance(n.value.func, ast.Attribute) and isinstance(n.value.func.value, ast.Name):
+          mutated.add(n.value.func.value.id)      # X.update(...), X.append(...) at module level
     self.counts = counts
+    self.mutated = mutated
 
   def name(self, ident):
     if ident in self._cache:
@@ -154,6 +162,9 @@ class ConstEval(object):
     if self.counts.get(ident, 0) != 1:
       raise AnalysisError("%s.%s is assigned %d times at module level; not a constant"
                           % (self.module.name, ident, self.counts.get(ident, 0)))
+    if ident in self.mutated:
+      raise AnalysisError("%s.%s is filled in place at module level; not a constant"
+                          % (self.module.name, ident))
     self._busy.add(ident)
     try:
       v = self.ev(node)
@@ -714,3 +725,69 @@ def _dict_carries(d, field):
   if isinstance(d, ast.Dict) and all(isinstance(k, ast.Constant) for k in d.keys):
     return HARMFUL if any(k.value == field for k in d.keys) else HARMLESS
   return HARMFUL     # an arbitrary values dict may carry a rename
+
+
+# ======================================================================== schema.py extraction
+
+def python_schema(world):
+  """The metadata schema as written in schema.schema_create_actions(), read from the AST:
+  OrderedPairs [(table_id, [(col_id, col_type), ...])], plus the AST nodes for reports.
+  Slots are filled by role: the AddTable field order comes from actions.py, the meaning of
+  make_column's parameters from the dict it returns."""
+  repo = world.repo
+  mod = repo.module("schema")
+  fi = repo.func("schema.schema_create_actions")
+  mk = repo.func("schema.make_column")
+  # make_column: which parameter is the id, which the type
+  rets = [s for s in ast.walk(mk.node) if isinstance(s, ast.Return)]
+  if len(rets) != 1 or not isinstance(rets[0].value, ast.Dict):
+    raise AnalysisError("schema.make_column no longer returns one dict literal")
+  role = {}
+  for k, v in zip(rets[0].value.keys, rets[0].value.values):
+    if isinstance(k, ast.Constant) and isinstance(v, ast.Name):
+      role[k.value] = v.id
+  if "id" not in role or "type" not in role:
+    raise AnalysisError("schema.make_column: 'id'/'type' keys not bound to parameters")
+  params = mk.params()
+  fields = world.action_types().get("AddTable")
+  if fields is None or "table_id" not in fields or "columns" not in fields:
+    raise AnalysisError("actions.AddTable fields changed")
+  i_tid, i_cols = fields.index("table_id"), fields.index("columns")
+  rets = [s for s in ast.walk(fi.node) if isinstance(s, ast.Return)]
+  if len(rets) != 1 or not isinstance(rets[0].value, ast.List):
+    raise AnalysisError("schema.schema_create_actions no longer returns one list literal")
+
+  def arg(call, params_, name):
+    for kw in call.keywords:
+      if kw.arg == name:
+        return kw.value
+    i = params_.index(name)
+    if i < len(call.args):
+      return call.args[i]
+    return None
+
+  out = OrderedPairs()
+  for el in rets[0].value.elts:
+    if not (isinstance(el, ast.Call) and dotted(el.func) in ("actions.AddTable", "AddTable") and
+            not el.keywords and len(el.args) == len(fields)):
+      raise AnalysisError("schema_create_actions: element is not actions.AddTable(...): %s"
+                          % short(el))
+    tid, cols = el.args[i_tid], el.args[i_cols]
+    if not (isinstance(tid, ast.Constant) and isinstance(tid.value, str) and
+            isinstance(cols, ast.List)):
+      raise AnalysisError("schema_create_actions: table not written as literals: %s" % short(el))
+    cl = []
+    for c in cols.elts:
+      if not (isinstance(c, ast.Call) and dotted(c.func) == "make_column"):
+        raise AnalysisError("schema_create_actions: column is not make_column(...): %s"
+                            % short(c))
+      cid, ctype = arg(c, params, role["id"]), arg(c, params, role["type"])
+      if not (isinstance(cid, ast.Constant) and isinstance(cid.value, str) and
+              isinstance(ctype, ast.Constant) and isinstance(ctype.value, str)):
+        raise AnalysisError("schema_create_actions: column id/type not literal: %s" % short(c))
+      cl.append((cid.value, ctype.value, c))
+    out.append((tid.value, cl))
+  ids = [t for t, _ in out]
+  if len(set(ids)) != len(ids):
+    raise AnalysisError("schema_create_actions: duplicate table ids")
+  return out
